@@ -1,4 +1,5 @@
-"""Contract: finalize (C12)."""
+"""Contract: finalize (C12; also C08: hook keys are compared as parsed; C11: a rejected hook
+binding leaves the configuration untouched)."""
 import z3
 
 from pyvc import sym, world
@@ -11,7 +12,7 @@ from contracts.c_config_state import locked, dict_same
 PBKDict = KDict(ParsedBindingKey, KVal)
 HookResult = KOpt(KDict(KVal, KVal))
 
-c = Contract('config.py::finalize', ['C12'])
+c = Contract('config.py::finalize', ['C12', 'C08', 'C11'])
 c.modifies = set(REG_FIELDS) | {'_CONFIG', '_CONFIG_PROVENANCE', '_CONFIG_IS_LOCKED'}
 c.local_kinds = {'bindings': PBKDict, 'new_bindings': HookResult}
 c.opaque_pure = True
